@@ -75,12 +75,13 @@ prop("C08", "Unbounded proof that only acknowledged parts count as sent: the pay
       B+"startTrack": None,
       "(*payload.Bin).Split": None,
       S+"Received": None})
-prop("C10", "Unbounded proof of the per-call rules of the queue's emission: a chunk never names itself, unordered tags announce no predecessor, ordered ones announce the name returned for the chain predecessor (recovered files keep their own), the slice is exactly what the allocator returned, a placeholder skipped at the head stays the predecessor of the file behind it (under local list consistency); unordered tags drop the predecessor in the binnable",
+prop("C10", "Unbounded proof of the per-call rules of the queue's emission: a chunk never names itself, unordered tags announce no predecessor, ordered ones announce the name returned for the chain predecessor (recovered files keep their own), the slice is exactly what the allocator returned, a placeholder skipped at the head stays the predecessor of the file behind it (under local list consistency); unordered tags drop the predecessor in the binnable; the list surgery on files (unlink, insert before/behind) joins the neighbours and links the node where asked (pointer postconditions under linearity hypotheses)",
      "global acyclicity of the predecessor relation over Push/Pop histories; sorted insertion (addFile) not yet under contract; same name queued twice concurrently",
      {"(*queue.Tagged).Pop": ["no-self-reference", "unordered-has-no-prev", "prev-is-chain-predecessor", "slice-from-allocate", "allocates-unallocated-only", "placeholder-stays-predecessor"],
       "(*queue.sortedFile).getPrevName": None,
       "(*client.binnable).GetPrev": None,
-      "(*client.recoverFile).GetPrev": None})
+      "(*client.recoverFile).GetPrev": None,
+      "(*queue.sortedFile).unlink": None, "(*queue.sortedFile).insertAfter": None, "(*queue.sortedFile).insertBefore": None})
 prop("C11", "Unbounded proof of the cursor contracts that make chunks and parts tile a file: each allocator returns exactly [old cursor, new cursor), non-empty, within the limit and inside the object (plain files, resumed files with their missing ranges, the binnable's slice cursor); Bin.Add places exactly the next unallocated bytes up to the room left (capacity + 10% slack), never exceeds the allowance, refuses only when nothing fits; a bin without room reports full; Split keeps head and tail and their byte counts (running sum proved); the ranges queued for a resumed file are the complement of the reported ones",
      "float rounding above 2^53 bytes (A3); the telescoping of the per-call contracts into 'exact tiling' is a paper step; data-structure invariant 0 <= allocated <= size assumed at Pop",
      {"(*queue.sortedFile).allocate": None, "(*queue.sortedFile).isAllocated": None, "(*queue.sortedFile).getSendSize": None,
@@ -90,10 +91,13 @@ prop("C11", "Unbounded proof of the cursor contracts that make chunks and parts 
       B+"startBin": None,
       B+"recover$1": ["0", "frame-reported-ranges", "processed-below-cursor", "missing-wellformed", "only-missing", "nothing-forgotten", "resumed-ranges-wellformed", "resumed-only-missing", "resumed-nothing-forgotten", "resumed-carries-ranges"],
       "(*queue.Tagged).Pop": ["slice-from-allocate", "allocates-unallocated-only"]})
-prop("C12", "Unbounded proof of the local rules of group rotation: the served group is moved directly behind the last group of the maximal run of equal priority (pointer postconditions under non-aliasing), the head pointer follows, exactly the group whose file is emitted is rotated, and the scan moves past a group only when it has nothing ready",
-     "sortedness of the group list by priority over addGroup/delayGroup histories and the bounded-bypass theorem are paper arguments; addGroup not yet under contract",
+prop("C12", "Unbounded proof of the local rules of group rotation: the served group is moved directly behind the last group of the maximal run of equal priority (pointer postconditions under non-aliasing), the head pointer follows, exactly the group whose file is emitted is rotated, and the scan moves past a group only when it has nothing ready; a new group is linked in front of the first group of lower priority or behind the last group, and becomes the head exactly when it outranks the head; the list surgery on groups and files is proved on its own",
+     "sortedness of the group list by priority over addGroup/delayGroup histories and the bounded-bypass theorem are paper arguments",
      {"(*queue.Tagged).delayGroup": None,
-      "(*queue.Tagged).Pop": ["emits-a-file-of-the-served-group", "rotates-served-group", "skips-only-unready-groups", "skipped-groups-are-not-rotated"]})
+      "(*queue.Tagged).Pop": ["emits-a-file-of-the-served-group", "rotates-served-group", "skips-only-unready-groups", "skipped-groups-are-not-rotated"],
+      "(*queue.Tagged).addGroup": None,
+      "(*queue.sortedGroup).addAfter": None, "(*queue.sortedGroup).addBefore": None, "(*queue.sortedGroup).insertAfter": None,
+      "(*queue.sortedFile).unlink": None, "(*queue.sortedFile).insertAfter": None, "(*queue.sortedFile).insertBefore": None})
 prop("C17", "Unbounded proof of the sender-side eligibility rules that are code in package client: a scanned file is taken iff it is not empty and is new or changed in size or time relative to the cache; changed files are dropped from a payload being retried and never re-sent by the retry loop; start-up recovery polls or resumes only unchanged files",
      "the directory walk and pattern rules of store.Local when not yet under contract; histories of scans; regexp engine",
      {B+"includeScannedFile": None,
